@@ -4,7 +4,9 @@ CONSTANTS
   Ratios <- AllRatios
   OffsetIds <- AllOffsets
   MaxVec = 2
+  NSteps = 3
+  Patterns = {"all"}
   EmitMode = "all"
-INVARIANTS TypeOK Partition Monotone PrefixExact
+INVARIANTS TypeOK Partition Monotone PrefixExact StepIndependent
 ACTION_CONSTRAINT Emit
 CHECK_DEADLOCK FALSE
